@@ -51,8 +51,10 @@ func cmdDump(args []string) int {
 	timeout := fs.Int("timeout", 10000, "ms per obligation")
 	layer := fs.String("layer", "", "property whose contract layer is active (default: all clauses)")
 	fs.Parse(args)
-	activeLayer = *layer
 	w, err := loadWorld(*repo, true)
+	if w != nil {
+		w.layer = *layer
+	}
 	if err != nil {
 		fmt.Fprintln(os.Stderr, err)
 		return 3
